@@ -11,8 +11,10 @@ sub-grammar, recognised by their text in grammar.go, building the same AST type.
 NOT proved: that the two parsers are equal on all token lists (`LRAgrees`; the
 standard LR-correctness argument for this grammar was out of reach).  It is
 CHECKED on every run of `./check C08`: ≥ 12 000 generated value expressions and
-token-level mutants per quick run, model against model (`C08.lrcmp`), and both
-against `Parser.ParseValExp`'s accept/reject.  The corollaries below are
+token-level mutants per quick run, model against model (`C08.lrcmp`), both also
+against `Parser.ParseValExp`'s accept/reject; and EXHAUSTIVELY for every token
+sequence of length ≤ 4 (thorough: ≤ 5) over an alphabet with one token of each
+kind the grammar distinguishes (18 tokens, 111 151 sequences; `C08.lrexh`).  The corollaries below are
 therefore `_partial`: they carry `LRAgrees` (or its instance for the token list
 at hand) as an explicit hypothesis.
 -/
@@ -20,7 +22,7 @@ import Props.C09
 import Martian.LexerLRSem
 
 namespace Props.C09
-open Martian.FormatExp Martian.LexerLR
+open Martian.FormatExp Martian.LexerLR Martian.FormatCall Martian.FormatCall2
 
 /-- the goyacc parser model and the recursive-descent reader return the same
 result on every token list -/
@@ -70,5 +72,32 @@ example :
     optExpEq (parseLR [.punct 0x5B, .int [0x31], .punct 0x2C, .punct 0x2C, .punct 0x5D])
       (parseToks [.punct 0x5B, .int [0x31], .punct 0x2C, .punct 0x2C, .punct 0x5D]) = true ∧
     (parseLR [.id [0x58], .punct 0x2E, .id [0x79]]).isNone = true := by decide +kernel
+
+/-! ## call statements (`file: call_stm`) -/
+
+/-- the goyacc parser model and x-c09's reader of a call statement return the
+same result on every token list (NOT proved; checked per run on ≥ 6000 generated
+call statements and token-level mutants, `C08.lrcmpcall`) -/
+def LRCallAgrees : Prop :=
+  ∀ ts : List Tok, parseLRCall ts = (match pCall2 ts with | some (c, []) => some c | _ => none)
+
+/-- `ParseSourceBytes` on a file holding one call statement, through the goyacc model -/
+def parseCallLR (src : List UInt8) : Option Call2 := (lexAll src).bind parseLRCall
+
+theorem goyacc_parse_call_eq_reader_partial (h : LRCallAgrees) (src : List UInt8) :
+    parseCallLR src = parseCall2 src := by
+  unfold parseCallLR parseCall2
+  cases lexAll src with
+  | none => rfl
+  | some ts => simp only [Option.bind_some]; exact h ts
+
+/-- **format a call statement, then the goyacc parser**: modulo `LRCallAgrees`, the
+real LR algorithm with the real tables and the real actions reads a printed
+well-formed call statement (modifiers, `as`, `split` bindings, wildcard, `using`
+block) back as the call in normal form. -/
+theorem format_call_then_goyacc_parse_partial (h : LRCallAgrees) (c : Call2) (hw : wfCall2 c = true) :
+    parseCallLR (fmtCall2 [] c) = some (normCall2 c) := by
+  rw [goyacc_parse_call_eq_reader_partial h]
+  exact parse_format_call2 c hw
 
 end Props.C09
